@@ -35,6 +35,8 @@ pub enum Kind {
     TallKey(u64),
     /// a well-formed key of 8 levels W1/H2
     EightW1,
+    /// a root tree of height 15 with an aux buffer that caches levels larger than 64 KiB
+    TallAux(bool),
 }
 
 #[derive(Clone, Debug, Serialize, Deserialize)]
@@ -306,6 +308,25 @@ pub fn check(c: &Case) -> Verdict {
             };
             aux_exercise_shape(h, &shape, v, *keygen, &format!("a recycled aux buffer of {} bytes (first byte 0, leftovers behind it) for a root of height {}", len, shape[0].1))
         }
+        Kind::TallAux(keygen) => {
+            let shape: Vec<Level> = vec![(2, 15)];
+            let budget = 4 + n + (n << 15) + (n << 13) + (n << 11) + 500;
+            let v = if *keygen { vec![0u8; budget] } else { maux::expected_aux(&m, 2, 15, &seed, budget).unwrap_or_else(|| vec![0u8; budget]) };
+            // sign at a leaf in the upper part of the tree (37 % total is low; use keygen + a high leaf)
+            if *keygen {
+                aux_exercise_shape(h, &shape, v, true, "a large zeroed aux buffer for an H15 root")
+            } else {
+                let pk = hss::public_key(&m, &shape, &seed);
+                let blob = hss::private_key_blob(&shape, 30_001, &seed);
+                let mut a = AuxBuf::new(v);
+                let (o, calls) = libapi::sign(h, b"tall aux", &blob, Cb::Accept, Some(&mut a));
+                match o {
+                    Out::Panic(p) => Err((format!("sign-{}", panic_key(&p)), format!("sign panics with a large valid aux buffer of an H15 root: {}", p))),
+                    Out::Err => if calls.is_empty() { Ok("err".into()) } else { Err(("callback-on-error-path".into(), "callback on error path".into())) },
+                    Out::Ok(sig) => if libapi::verify(h, libapi::VerifyEntry::Function, b"tall aux", &sig, &pk).is_ok() { Ok("ok".into()) } else { Err(("released-invalid".into(), "signature made with a large aux buffer of an H15 root does not verify".into())) },
+                }
+            }
+        }
         Kind::EightW1 => {
             let levels: Vec<Level> = vec![(1, 2); 8];
             exercise_blob(h, &hss::private_key_blob(&levels, 77, &seed), "a well-formed key of 8 levels W1/H2")
@@ -387,6 +408,8 @@ pub fn run(ctx: &Ctx) {
             items.push(Case { hash: *h, kind: Kind::EightW1 });
         }
         if h.n() == 16 {
+            items.push(Case { hash: *h, kind: Kind::TallAux(true) });
+            items.push(Case { hash: *h, kind: Kind::TallAux(false) });
             for c in [0u64, 1, 2, 3, 1023, 1024, 1 << 40, (1 << 60) - 1, 1 << 63, u64::MAX - 1] {
                 items.push(Case { hash: *h, kind: Kind::TallKey(c) });
             }
